@@ -107,3 +107,40 @@ def selftest():
     r2 = check([maj, bnot(a)])[0]                      # sat (b = c = 1)
     r3 = check([bxor(bxor(a, b), c), bxor(a, b), c])[0]   # parity contradiction: unsat
     return (r1, r2, r3) == ("unsat", "sat", "unsat"), (r1, r2, r3)
+
+
+def solve_with_model(bits, tlimit_ms):
+    """cvc5 as a fall-back decision procedure on the exact encoding: ('unsat', None) | ('sat', {variable name: 0/1}) | ('unknown', None)"""
+    import cvc5
+    smt, nn, nv = smtlib(bits)
+    _nodes, vars_ = _cone(bits)
+    s = cvc5.Solver()
+    s.setOption("tlimit-per", str(int(tlimit_ms)))
+    s.setOption("produce-models", "true")
+    p = cvc5.InputParser(s)
+    p.setStringInput(cvc5.InputLanguage.SMT_LIB_2_6, smt, "fb")
+    sm = p.getSymbolManager()
+    res = "unknown"
+    while True:
+        c = p.nextCommand()
+        if c.isNull():
+            break
+        o = c.invoke(s, sm).strip()
+        if o:
+            if "error" in o:
+                return "unknown", None
+            res = o.splitlines()[-1].strip()
+    if res == "unsat":
+        return "unsat", None
+    if res != "sat":
+        return "unknown", None
+    model = {n: 0 for n in CTX.var_names}
+    byname = {}
+    for t in sm.getDeclaredTerms():
+        byname[str(t)] = t
+    for i in vars_:
+        t = byname.get("v%d" % i)
+        if t is None:
+            return "unknown", None
+        model[CTX.var_names[i]] = 1 if s.getValue(t).getBooleanValue() else 0
+    return "sat", model
